@@ -24,6 +24,11 @@ pub struct C02App {
     /// distance weight (replacing, not merging: the time weight in force is then 0)
     pub query_weights: u8,
     pub query_rates: bool,
+    /// (with `query_rates`, speed models) the query's rate map names only the distance: the map
+    /// replaces the configured one, a feature without a rate costs nothing (VehicleCostRate::Zero),
+    /// so the time term is out of the objective in force although its weight is not zero
+    #[serde(default)]
+    pub omit_time_rate: bool,
 }
 
 #[derive(Clone, Debug, serde::Serialize, serde::Deserialize)]
@@ -125,8 +130,9 @@ fn app_strategy(max_n: usize) -> BoxedStrategy<C02App> {
         (leaf(), leaf()),
         0u8..3,
         any::<bool>(),
+        proptest::bool::weighted(0.3),
     )
-        .prop_map(|(mut search, cfg_w, cfg_r, q_r, query_weights, query_rates)| {
+        .prop_map(|(mut search, cfg_w, cfg_r, q_r, query_weights, query_rates, omit_time_rate)| {
             search.edge_oriented = false;
             search.reverse = false;
             let n = search.spec.net.n();
@@ -169,6 +175,7 @@ fn app_strategy(max_n: usize) -> BoxedStrategy<C02App> {
                 cfg_r,
                 query_weights,
                 query_rates,
+                omit_time_rate,
             }
         })
         .boxed()
@@ -184,6 +191,8 @@ fn check_app(c: &C02App) -> Outcome {
     o.label_if(c.search.query_wf.is_some(), "query-override-weight-factor");
     let sc = &c.search;
     let has_time = sc.spec.has_time();
+    let omit_time = c.omit_time_rate && c.query_rates && has_time && sc.spec.cost.w_dist > 0.0;
+    o.label_if(omit_time, "query-rates-omit-time");
     let mut app = AppSpec::simple(sc.spec.net.clone());
     app.trav = sc.spec.trav.clone();
     app.state = Some(sc.spec.state.clone());
@@ -235,7 +244,7 @@ fn check_app(c: &C02App) -> Outcome {
     if c.query_rates {
         let mut r = serde_json::Map::new();
         r.insert(DIST.into(), obj.r_dist.to_json());
-        if has_time {
+        if has_time && !omit_time {
             r.insert(TIME.into(), obj.r_time.to_json());
         }
         q.insert("vehicle_rates".into(), serde_json::Value::Object(r));
@@ -270,7 +279,11 @@ fn check_app(c: &C02App) -> Outcome {
     if ids.iter().any(|e| *e >= g.m()) {
         return o;
     }
-    let ev = RefEval::new(&sc.spec);
+    let mut spec_in_force = sc.spec.clone();
+    if omit_time {
+        spec_in_force.cost.w_time = 0.0;
+    }
+    let ev = RefEval::new(&spec_in_force);
     let ref_cost: Vec<f64> = (0..g.m()).map(|e| ev.edge_cost(e)).collect();
     let dist = ref_sssp(&g, &ref_cost, &|_| true, sc.o);
     let opt = dist[sc.d.unwrap()];
@@ -292,7 +305,7 @@ impl Prop for C02 {
         "C02"
     }
     fn rule(&self) -> String {
-        "generated: Dijkstra on networks with free lengths, A* (weight factor in (0,1] from configuration, default, query override, or a query factor on configured Dijkstra) on metrically consistent networks (length >= 1.002 x great-circle + 1 m); distance or speed-table traversal in all unit combinations; non-negative weights with positive sum incl. zeros; rates raw / factor / combined; optional non-negative per-edge surcharge; optional edge-local restriction; forward and reverse; vertex and edge orientation; no access model; one case in 13 goes through a real application built from files whose configuration differs from the objective where the query overrides weights (all, or only some: replacing, not merging), vehicle rates or the weight factor. Oracles: (1) route cost = label-correcting reference optimum over the implementation's own per-edge costs (1e-9), (2) reference cost of the returned route under SI units <= reference optimum x 1.003, (3) A* cost = Dijkstra cost. non-trivial = returned route has >= 2 edges and at least one other simple origin-destination path exists".to_string()
+        "generated: Dijkstra on networks with free lengths, A* (weight factor in (0,1] from configuration, default, query override, or a query factor on configured Dijkstra) on metrically consistent networks (length >= 1.002 x great-circle + 1 m); distance or speed-table traversal in all unit combinations; non-negative weights with positive sum incl. zeros; rates raw / factor / combined; optional non-negative per-edge surcharge; optional edge-local restriction; forward and reverse; vertex and edge orientation; no access model; one case in 13 goes through a real application built from files whose configuration differs from the objective where the query overrides weights (all, or only some: replacing, not merging), vehicle rates (all, or only the distance rate: the map replaces the configured one and an unnamed feature costs nothing) or the weight factor. Oracles: (1) route cost = label-correcting reference optimum over the implementation's own per-edge costs (1e-9), (2) reference cost of the returned route under SI units <= reference optimum x 1.003, (3) A* cost = Dijkstra cost. non-trivial = returned route has >= 2 edges and at least one other simple origin-destination path exists".to_string()
     }
     fn strategy(&self, tier: Tier) -> BoxedStrategy<C02Case> {
         let n = tier.pick(14, 60);
